@@ -573,8 +573,21 @@ class DivSIOp(SignlessIntegerBinaryOperation, ConditionallySpeculatableInterface
         return attr == IntegerAttr(1, attr.type)
 
 
+def _is_safe_signed_divisor(rhs: SSAValue) -> bool:
+    """
+    A signed division or remainder can be speculated only if its divisor is a constant
+    other than 0 (division by zero) and -1 (overflow on the minimum value).
+    """
+    value = ConstantLike.get_constant_value(rhs)
+    return (
+        isa(value, IntegerAttr[IntegerType | IndexType])
+        and value.value.data != 0
+        and value.value.data != -1
+    )
+
+
 @irdl_op_definition
-class FloorDivSIOp(SignlessIntegerBinaryOperation):
+class FloorDivSIOp(SignlessIntegerBinaryOperation, ConditionallySpeculatableInterface):
     """
     Signed floor integer division. Rounds towards negative infinity i.e. `5 / -2 = -3`.
     """
@@ -582,8 +595,12 @@ class FloorDivSIOp(SignlessIntegerBinaryOperation):
     name = "arith.floordivsi"
 
     traits = traits_def(
-        Pure(), SignlessIntegerBinaryOperationHasCanonicalizationPatternsTrait()
+        NoMemoryEffect(),
+        SignlessIntegerBinaryOperationHasCanonicalizationPatternsTrait(),
     )
+
+    def is_speculatable(self) -> bool:
+        return _is_safe_signed_divisor(self.rhs)
 
     @staticmethod
     def is_right_unit(attr: IntegerAttr) -> bool:
@@ -591,12 +608,16 @@ class FloorDivSIOp(SignlessIntegerBinaryOperation):
 
 
 @irdl_op_definition
-class CeilDivSIOp(SignlessIntegerBinaryOperation):
+class CeilDivSIOp(SignlessIntegerBinaryOperation, ConditionallySpeculatableInterface):
     name = "arith.ceildivsi"
 
     traits = traits_def(
-        Pure(), SignlessIntegerBinaryOperationHasCanonicalizationPatternsTrait()
+        NoMemoryEffect(),
+        SignlessIntegerBinaryOperationHasCanonicalizationPatternsTrait(),
     )
+
+    def is_speculatable(self) -> bool:
+        return _is_safe_signed_divisor(self.rhs)
 
     @staticmethod
     def is_right_unit(attr: IntegerAttr) -> bool:
@@ -623,10 +644,13 @@ class RemUIOp(SignlessIntegerBinaryOperation):
 
 
 @irdl_op_definition
-class RemSIOp(SignlessIntegerBinaryOperation):
+class RemSIOp(SignlessIntegerBinaryOperation, ConditionallySpeculatableInterface):
     name = "arith.remsi"
 
-    traits = traits_def(Pure())
+    traits = traits_def(NoMemoryEffect())
+
+    def is_speculatable(self) -> bool:
+        return _is_safe_signed_divisor(self.rhs)
 
 
 @irdl_op_definition
